@@ -24,22 +24,39 @@ def _sandbox_env(d, extra=None):
     return env
 
 
+# both runs draw ids (and placement ids) from the same fixed sequence, so that subspaces of more than one id and the larger id
+# spaces can be compared byte for byte; the command line is still entered through tupimage.cli.main() with its argv
+_FIXED_DRAWS = (
+    "import random as _r\n"
+    "import tupimage.id_manager as _m\n"
+    "class _S:\n"
+    "    def __init__(s): s.r = _r.Random(4242)\n"
+    "    def randbelow(s, n): return s.r.randrange(n)\n"
+    "    def choice(s, q): return q[s.r.randrange(len(q))]\n"
+    "_m.secrets = _S()\n"
+    "_r.seed(4242)\n"
+)
+_CLI_PROG = _FIXED_DRAWS + "import sys\nimport tupimage.cli\nsys.argv = ['tupimage'] + sys.argv[1:]\ntupimage.cli.main()\n"
+
+
 def _run_cli(d, argv, env):
     """in a pty child: run the CLI; the tty output (graphics commands) is what in_pty returns as 'tty'"""
     def child():
         os.makedirs(os.path.join(d, "tmp"), exist_ok=True)
-        p = subprocess.run([common.PY, "-m", "tupimage.cli"] + argv, env=env, cwd=d, stdout=subprocess.PIPE, stderr=subprocess.PIPE, timeout=120)
+        p = subprocess.run([common.PY, "-c", _CLI_PROG] + argv, env=env, cwd=d, stdout=subprocess.PIPE, stderr=subprocess.PIPE, timeout=120)
         return {"rc": p.returncode, "stdout": p.stdout.hex(), "stderr": p.stderr.decode(errors="replace")[-400:]}
     return common.in_pty(child, timeout=300)
 
 
 def _run_api(d, call, env):
     """in a pty child: the library call the CLI invocation stands for, in a fresh interpreter with the same environment"""
-    prog = (
+    prog = _FIXED_DRAWS + (
         "import sys, json\n"
         "import tupimage\n"
         "call = json.loads(sys.argv[1])\n"
         "t = tupimage.TupimageTerminal(out_display=call['out_display'], config_overrides=call['overrides'])\n"
+        "if call.get('dump'):\n"
+        "    print(t._config.to_toml_string(with_provenance=True), end='')\n"
         "ulf = call['use_line_feeds']\n"
         "if ulf == 'auto' and not t.term.out_display.isatty():\n"
         "    ulf = 'yes'\n"
@@ -69,7 +86,18 @@ def cases(rng, n, env_rate=0.3):
         {"cols": None, "rows": None, "scale": 3.0, "max_cols": "5", "max_rows": "2"}, {"cols": 2, "rows": None, "force": True},
         {"cols": None, "rows": 5, "max_cols": "3"}, {"cols": 7, "rows": None, "max_rows": "2"}, {"cols": None, "rows": None, "max_cols": "auto", "max_rows": "auto"},
     ]
-    base = base + [{"cols": None, "rows": None, "three": True}, {"cols": 2, "rows": None, "three": True, "force": True}]
+    base = base + [{"cols": None, "rows": None, "three": True}, {"cols": 2, "rows": None, "three": True, "force": True},
+                   {"cols": None, "rows": None, "three": True, "env": {"TUPIMAGE_REUPLOAD_MAX_UPLOADS_AGO": "1", "TUPIMAGE_ID_SUBSPACE": "100:104"}},
+                   # settings from a configuration FILE (no environment variable, nothing on the command line for them)
+                   {"cols": None, "rows": None, "file": {"id_space": "24bit", "id_subspace": "16:32"}, "dump": True},
+                   {"cols": None, "rows": None, "two": True, "file": {"id_space": "8bit", "id_subspace": "100:120", "max_cols": 2, "fewer_diacritics": True}},
+                   {"cols": None, "rows": 2, "file": {"id_space": "16bit", "num_tmux_layers": 1, "scale": 0.5, "background": "#102030"}},
+                   # limits above 256 columns on the command line, an image wide enough to need them
+                   {"cols": None, "rows": None, "wide": True, "max_cols": "400", "max_rows": "50"}, {"cols": 300, "rows": None, "wide": True, "max_cols": "400", "max_rows": "50"},
+                   {"cols": None, "rows": None, "wide": True, "max_cols": "256", "max_rows": "256"},
+                   # an explicit 'auto' on the command line above a number from a lower layer
+                   {"cols": None, "rows": None, "max_cols": "auto", "env": {"TUPIMAGE_MAX_COLS": "2"}, "dump": True},
+                   {"cols": None, "rows": None, "two": True, "max_rows": "auto", "file": {"max_rows": 1}, "dump": True}]
     if env_rate > 0:
         # settings from the environment layer that bite for the two test images (23x11 and 9x30 px on 8x16 cells)
         base = [{"cols": None, "rows": None, "env": {"TUPIMAGE_MAX_COLS": "2"}}, {"cols": None, "rows": None, "two": True, "env": {"TUPIMAGE_MAX_ROWS": "1"}},
@@ -94,9 +122,16 @@ def cases(rng, n, env_rate=0.3):
         # the command line must not override it with a default of its own
         if rng.random() < env_rate:
             name, val, key = rng.choice([("TUPIMAGE_MAX_COLS", "2", "max_cols"), ("TUPIMAGE_MAX_ROWS", "1", "max_rows"), ("TUPIMAGE_SCALE", "0.5", "scale"),
-                                         ("TUPIMAGE_MAX_COLS", "5", "max_cols"), ("TUPIMAGE_FEWER_DIACRITICS", "true", None), ("TUPIMAGE_BACKGROUND", "3", None)])
+                                         ("TUPIMAGE_MAX_COLS", "5", "max_cols"), ("TUPIMAGE_FEWER_DIACRITICS", "true", None), ("TUPIMAGE_BACKGROUND", "3", None),
+                                         ("TUPIMAGE_ID_SPACE", rng.choice(["16bit", "24bit", "32bit", "8bit_diacritic"]), None), ("TUPIMAGE_ID_SUBSPACE", rng.choice(["100:104", "0:256", "255:256"]), None),
+                                         ("TUPIMAGE_NUM_TMUX_LAYERS", rng.choice(["1", "2"]), None), ("TUPIMAGE_FORCE_UPLOAD", "true", None),
+                                         ("TUPIMAGE_REUPLOAD_MAX_UPLOADS_AGO", "1", None), ("TUPIMAGE_UPLOAD_METHOD", "file", None)])
             if key is None or c.get(key) is None:
                 c["env"] = {name: val}
+        if rng.random() < 0.25:
+            c["dump"] = True       # --dump-config: the effective configuration with the layer each value came from
+        if rng.random() < 0.2 and not c.get("three"):
+            c["twice"] = True      # the same image named twice in a row
         out.append(c)
     return out
 
@@ -112,13 +147,27 @@ def cli_equivalence(ctx, cov, n, env_rate=0.3):
             d = os.path.join(work, f"{idx}-{who}")
             os.makedirs(d, exist_ok=True)
             rnd = _random.Random(1000 + idx)
-            for name, size in (("a.png", (23, 11)), ("b.png", (9, 30))):
+            for name, size in (("a.png", (23, 11)), ("b.png", (9, 30)), ("wide.png", (2400, 16))):
                 im = Image.new("RGB", size)
                 im.putdata([(rnd.randrange(256), rnd.randrange(256), rnd.randrange(256)) for _ in range(size[0] * size[1])])
                 im.save(os.path.join(d, name))
                 os.utime(os.path.join(d, name), ns=(1_700_000_000_000_000_000, 1_700_000_000_000_000_000))
-            images = ["a.png"] + (["b.png"] if c.get("two") else []) + (["b.png", "a.png"] if c.get("three") else [])
+            images = (["wide.png"] if c.get("wide") else ["a.png"]) + (["b.png"] if c.get("two") else []) + (["b.png", "a.png"] if c.get("three") else []) + (["a.png"] if c.get("twice") else [])
             env = _sandbox_env(d, c.get("env"))
+            if c.get("file"):
+                import toml as _toml
+                cfg_path = os.path.join(d, "cfg.toml")
+                with open(cfg_path, "w") as f:
+                    f.write(_toml.dumps(c["file"]))
+                env["TUPIMAGE_CONFIG"] = cfg_path
+                for k in c["file"]:
+                    env.pop("TUPIMAGE_" + k.upper(), None)      # the file is the highest layer that sets these
+            if "TUPIMAGE_NUM_TMUX_LAYERS" in (c.get("env") or {}) or "num_tmux_layers" in (c.get("file") or {}):
+                os.makedirs(os.path.join(d, "bin"), exist_ok=True)
+                with open(os.path.join(d, "bin", "tmux"), "w") as f:
+                    f.write("#!/bin/sh\necho 'fake-term||||77||||88_sess'\n")
+                os.chmod(os.path.join(d, "bin", "tmux"), 0o755)
+                env["PATH"] = os.path.join(d, "bin") + ":" + env.get("PATH", os.environ.get("PATH", ""))
             if who == "cli":
                 argv = ["display", "--out-display", "disp.out"]
                 for k, flag in (("cols", "--cols"), ("rows", "--rows"), ("max_cols", "--max-cols"), ("max_rows", "--max-rows"), ("scale", "--scale")):
@@ -128,11 +177,13 @@ def cli_equivalence(ctx, cov, n, env_rate=0.3):
                     argv.append("--force-upload")
                 if c.get("ulf"):
                     argv += ["--use-line-feeds", c["ulf"]]
+                if c.get("dump"):
+                    argv.append("--dump-config")
                 r = _run_cli(d, argv + images, env)
             else:
                 call = {"out_display": "disp.out", "overrides": {"force_upload": bool(c.get("force")), "max_cols": c.get("max_cols"), "max_rows": c.get("max_rows"),
                                                                   "scale": c.get("scale"), "provenance": "set via command line"},
-                        "images": images, "rows": c.get("rows"), "cols": c.get("cols"), "use_line_feeds": c.get("ulf", "auto")}
+                        "images": images, "rows": c.get("rows"), "cols": c.get("cols"), "use_line_feeds": c.get("ulf", "auto"), "dump": bool(c.get("dump"))}
                 r = _run_api(d, call, env)
             if "ok" not in r:
                 ctx.corr_breaks.append({"what": f"CLI equivalence: the {who} run failed in the pty sandbox", "case": c, "error": {k: v for k, v in r.items() if k != "tty"}})
@@ -144,7 +195,8 @@ def cli_equivalence(ctx, cov, n, env_rate=0.3):
             except OSError:
                 disp = b""
             # the sandbox directory name differs between the two runs: it appears in nothing that is transmitted (method direct)
-            runs[who] = {"rc": r["ok"]["rc"], "tty": bytes(r["tty"]), "disp": disp, "stderr": r["ok"]["stderr"]}
+            runs[who] = {"rc": r["ok"]["rc"], "tty": bytes(r["tty"]), "disp": disp, "stderr": r["ok"]["stderr"],
+                         "stdout": bytes.fromhex(r["ok"]["stdout"]).replace(d.encode(), b"<DIR>")}
         if not runs:
             continue
         case = {"kind": "cli-equivalence", **{k: v for k, v in c.items()}}
@@ -153,7 +205,7 @@ def cli_equivalence(ctx, cov, n, env_rate=0.3):
         if b["rc"] != 0 or not b["tty"] or not b["disp"]:
             ctx.corr_breaks.append({"what": "CLI equivalence: the library call itself failed or wrote nothing", "case": case, "rc": b["rc"], "stderr": b["stderr"]})
             continue
-        diffs = [k for k in ("rc", "tty", "disp") if a[k] != b[k]]
+        diffs = [k for k in ("rc", "tty", "disp", "stdout") if a[k] != b[k]]
         if diffs:
             ctx.violations.append({"signature": {"class": "cli-differs-from-library-call", "what": diffs},
                                    "what": f"`tupimage display` with {c} puts something else on the terminal than upload_and_display with the same parameters: {', '.join(diffs)} differ "
@@ -409,8 +461,13 @@ def cli_id_scenarios(ctx, cov):
         "t.upload_and_display(inst, rows=None, cols=None)\n"
     )
     scenarios = [("same-terminal", "101", None), ("other-terminal", "202", None), ("other-terminal-file-overwritten", "202", "overwrite"),
-                 ("other-terminal-file-deleted", "202", "delete"), ("same-terminal-file-overwritten", "101", "overwrite")]
-    for name, client2, damage in scenarios:
+                 ("other-terminal-file-deleted", "202", "delete"), ("same-terminal-file-overwritten", "101", "overwrite"),
+                 # the id is re-displayed by an invocation configured for ANOTHER id space / subspace: it stays the id it is
+                 ("same-terminal-other-id-space", "101", None, {"TUPIMAGE_ID_SPACE": "32bit", "TUPIMAGE_ID_SUBSPACE": "0:256"}),
+                 ("other-terminal-other-id-space", "202", None, {"TUPIMAGE_ID_SPACE": "24bit", "TUPIMAGE_ID_SUBSPACE": "100:104", "TUPIMAGE_FEWER_DIACRITICS": "true"})]
+    for sc_ in scenarios:
+        name, client2, damage = sc_[:3]
+        env2 = sc_[3] if len(sc_) > 3 else {}
         runs = {}
         for who in ("cli", "api"):
             d = os.path.join(work, f"{name}-{who}")
@@ -426,8 +483,9 @@ def cli_id_scenarios(ctx, cov):
             os.utime(os.path.join(d, "a.png"), ns=(1_700_000_000_000_000_000, 1_700_000_000_000_000_000))
             base = _sandbox_env(d, {"TMUX": "/tmp/tmux-0/default,1,0", "TERM": "screen-256color", "PATH": os.path.join(d, "bin") + ":" + os.environ.get("PATH", "")})
 
-            def step(argv_or_prog, client, api=False):
+            def step(argv_or_prog, client, api=False, extra=None):
                 env = dict(base, FAKE_TMUX_CLIENT=client)
+                env.update(extra or {})
 
                 def child():
                     cmd = [common.PY, "-c", argv_or_prog[0]] + argv_or_prog[1:] if api else [common.PY, "-m", "tupimage.cli"] + argv_or_prog
@@ -446,7 +504,7 @@ def cli_id_scenarios(ctx, cov):
                 os.utime(os.path.join(d, "a.png"), ns=(1_700_000_100_000_000_000, 1_700_000_100_000_000_000))
             elif damage == "delete":
                 os.remove(os.path.join(d, "a.png"))
-            r2 = step([prog_api, "10"], client2, api=True) if who == "api" else step(["display", "--out-display", "disp2.out", "id:10"], client2)
+            r2 = step([prog_api, "10"], client2, api=True, extra=env2) if who == "api" else step(["display", "--out-display", "disp2.out", "id:10"], client2, extra=env2)
             if "ok" not in r2:
                 ctx.corr_breaks.append({"what": "CLI id scenarios: the second step failed in the sandbox", "scenario": name, "error": {k: v for k, v in r2.items() if k != "tty"}})
                 runs = None
